@@ -12,6 +12,7 @@ type Effects struct {
 	Calls    map[string]bool // callee names (Callee.Name()) of non-module calls and dynamic calls
 	Go       bool            // starts a goroutine
 	Acquires map[string]bool // locks acquired
+	Elems    bool            // may write memory that is not a struct field or a local variable (a store through an index address or a computed pointer)
 }
 
 type Summaries struct {
@@ -38,6 +39,13 @@ func buildSummaries(p *Prog) *Summaries {
 			}
 		}
 		eachInstr(f, func(in ssa.Instruction) {
+			if st, isSt := in.(*ssa.Store); isSt {
+				switch st.Addr.(type) {
+				case *ssa.FieldAddr, *ssa.Alloc, *ssa.FreeVar, *ssa.Global:
+				default:
+					e.Elems = true
+				}
+			}
 			cc := callCommon(in)
 			if cc == nil {
 				return
@@ -86,6 +94,7 @@ func buildSummaries(p *Prog) *Summaries {
 				t.Acquires[k] = true
 			}
 			t.Go = t.Go || d.Go
+			t.Elems = t.Elems || d.Elems
 			for _, h := range callees[g] {
 				visit(h)
 			}
